@@ -1,6 +1,6 @@
 (* Corr/C02Spec.v — correspondence cases for C02 and the property-strength oracle (spec side).
    A case carries the inputs given to the real implementation and what it answered. *)
-From NV Require Import Common.Py Spec.TimeSpec.
+From NV Require Import Common.Py Spec.TimeSpec Model.PickleInt.
 Open Scope Z_scope.
 
 Inductive c02case :=
@@ -10,7 +10,8 @@ Inductive c02case :=
 | FromOffset (t : Z) (out : res Z)                         (* DateTime.from_offset(TimeDelta.from_ticks(t)).ticks *)
 | ArrayBytes (is_dt : bool) (l : list Z) (bytes : list Z)  (* XArray([...])._array.tobytes() *)
 | ArrayItems (is_dt : bool) (l : list Z) (out : list Z)    (* [x.ticks for x in XArray([...])] after set/get/slice paths *)
-| Pickle (is_dt : bool) (t : Z) (out : res Z).             (* pickle/deepcopy round trip .ticks *)
+| Pickle (is_dt : bool) (t : Z) (out : res Z)              (* pickle/deepcopy round trip .ticks *)
+| PickleInt (t : Z) (bytes : list Z).                      (* the int opcode, with its argument bytes, found in pickle.dumps(X.from_ticks(t), protocol) *)
 
 Definition rz_eqb := res_eqb Z.eqb.
 
@@ -23,4 +24,5 @@ Definition c02_spec_ok (c : c02case) : bool :=
   | ArrayBytes _ l bytes => list_eqb Z.eqb bytes (concat (map spec_record l))
   | ArrayItems _ l out => list_eqb Z.eqb out l
   | Pickle _ t out => rz_eqb out (spec_from_ticks t)
+  | PickleInt t bytes => list_eqb Z.eqb bytes (save_int t) && match load_int bytes with Some v => v =? t | None => false end
   end.
